@@ -135,7 +135,46 @@ BENIGN = [
     ("ok-export-reader-records-origin-on-nodes", "trees/treeinput.py",
      "    tree = trees.Tree(node_by_num[num])\n    tree.data['terminals'] = []",
      "    tree = trees.Tree(node_by_num[num])\n    tree.data['origin'] = 'export'\n    tree.data['terminals'] = []"),
+    # a reader may parse ahead: the discobrackets reader collects all trees before yielding
+    ("ok-discobrackets-reader-parses-ahead", "trees/treeinput.py",
+     "    params['disco'] = True\n    for tree in brackets(in_file, in_encoding, **params):\n        yield tree",
+     "    params['disco'] = True\n    for tree in list(brackets(in_file, in_encoding, **params)):\n        yield tree"),
+    # ... and so may the bracket reader (the error of a damaged file then surfaces before any
+    # of the intact groups in front of the damage is delivered)
+    ("ok-brackets-reader-parses-ahead", "trees/treeinput.py",
+     "def brackets(in_file, in_encoding, **params):\n",
+     "def brackets(in_file, in_encoding, **params):\n    for tree in list(_brackets_lazy(in_file, in_encoding, **params)):\n        yield tree\n\n\ndef _brackets_lazy(in_file, in_encoding, **params):\n"),
+    # rejections raise a subclass of ValueError
+    ("ok-reader-errors-are-a-valueerror-subclass", "trees/treeinput.py",
+     "raise ValueError(", "raise TreebankFormatError("),
+    # PTB-style blanks between the children in bracket output
+    ("ok-brackets-writer-blank-before-child", "trees/treeoutput.py",
+     "        for child in trees.children(tree):\n            write_brackets_subtree(child, stream, **params)",
+     "        for child in trees.children(tree):\n            stream.write(u\" \")\n            write_brackets_subtree(child, stream, **params)"),
+    # destinations written under a temporary name and renamed when complete
+    ("ok-destination-written-then-renamed", "trees/transform.py",
+     "            with io.open(dest, 'w', encoding=args.dest_enc) as dest_stream:",
+     "            with _renamed_when_done(dest, args.dest_enc) as dest_stream:"),
+    ("ok-split-parts-written-then-renamed", "trees/transform.py",
+     "            with io.open(\"%s.%d\" % (args.dest, i), 'w',\n                         encoding=args.dest_enc) as dest_stream:",
+     "            with _renamed_when_done(\"%s.%d\" % (args.dest, i), args.dest_enc) as dest_stream:"),
+    # grammar files written under a temporary name in the temp directory, then moved
+    ("ok-pmcfg-lexicon-via-tempfile", "trees/grammaroutput.py",
+     "        with io.open(\"%s.lex\" % dest, 'w', encoding=dest_enc) as lex_stream:",
+     "        with _via_temp(\"%s.lex\" % dest, dest_enc) as lex_stream:"),
+    # rules extracted bottom-up instead of top-down (other insertion order of the grammar)
+    ("ok-extract-visits-nodes-in-reverse", "trees/grammar.py",
+     "    for subtree in trees.preorder(tree):\n        if trees.has_children(subtree):\n            # map terminal indices",
+     "    for subtree in reversed(list(trees.preorder(tree))):\n        if trees.has_children(subtree):\n            # map terminal indices"),
+    # the transform command reports on stdout when it is done
+    ("ok-transform-reports-on-stdout", "trees/transform.py",
+     "            sys.stderr.write(\"\\n\")\n    else:\n        if os.path.isdir(args.src):",
+     "            sys.stderr.write(\"\\n\")\n            print(\"%d trees\" % (cnt - 1))\n    else:\n        if os.path.isdir(args.src):"),
+    # an output stream kept in a module-level list (closed only at interpreter exit) -
+    # deliberately NOT a drill: the simulated process is harvested before module teardown.
 ]
+
+REPLACE_ALL = set(["ok-reader-errors-are-a-valueerror-subclass"])
 
 
 def run_benign(args, seed, repo, jobs, count=500):
@@ -144,6 +183,9 @@ def run_benign(args, seed, repo, jobs, count=500):
     check = os.path.join(here, 'check')
     from . import props
     rc = 0
+    count = int(os.environ.get('VERIF_DRILL_COUNT') or count)
+    only = [a.upper() for a in args if a.upper() in props.CLAIMED]
+    args = [a for a in args if a.upper() not in props.CLAIMED]
     for (name, rel, old, new) in BENIGN:
         if args and name not in args:
             continue
@@ -157,7 +199,7 @@ def run_benign(args, seed, repo, jobs, count=500):
                                 'no:cacheprovider'], cwd=dst, capture_output=True, text=True,
                                env=dict(os.environ, PYTHONDONTWRITEBYTECODE='1'))
             alarms = []
-            for p in props.CLAIMED:
+            for p in (only or props.CLAIMED):
                 r = subprocess.run([sys.executable, check, p, '--repo', dst, '--no-evidence',
                                     '--jobs', str(jobs), '--count', str(count)],
                                    capture_output=True, text=True,
@@ -190,7 +232,22 @@ def scratch_copy(repo):
     return base, dst
 
 
+_RENAMED = ("import contextlib\n\n\n@contextlib.contextmanager\ndef _renamed_when_done(path, enc):\n"
+            "    with io.open(path + '.part~', 'w', encoding=enc) as st:\n        yield st\n"
+            "    os.replace(path + '.part~', path)\n\n\ndef run(args):\n")
+
 EXTRA = {
+    "ok-reader-errors-are-a-valueerror-subclass": [
+        ("trees/treeinput.py", "def tigerxml_build_tree(",
+         "class TreebankFormatError(ValueError):\n    pass\n\n\ndef tigerxml_build_tree(")],
+    "ok-pmcfg-lexicon-via-tempfile": [
+        ("trees/grammaroutput.py", "def pmcfg(",
+         "import contextlib\nimport os\nimport shutil\nimport tempfile\n\n\n@contextlib.contextmanager\n"
+         "def _via_temp(path, enc):\n    fd, tmpname = tempfile.mkstemp()\n    os.close(fd)\n"
+         "    with io.open(tmpname, 'w', encoding=enc) as st:\n        yield st\n"
+         "    shutil.move(tmpname, path)\n\n\ndef pmcfg(")],
+    "ok-destination-written-then-renamed": [("trees/transform.py", "def run(args):\n", _RENAMED)],
+    "ok-split-parts-written-then-renamed": [("trees/transform.py", "def run(args):\n", _RENAMED)],
     "c18-labelgen-module-singleton": [("trees/grammar.py", "def linsub(lin, src, dest, replace):",
                                        "_SHARED_LABEL_GEN = LabelGenerator()\n\n\ndef linsub(lin, src, dest, replace):")],
     "c18-brackets-counter-on-function": [("trees/treeinput.py",
@@ -214,7 +271,7 @@ def apply(dst, m):
         s = f.read()
     if s.count(old) < 1:
         return False
-    s = s.replace(old, new, 1)
+    s = s.replace(old, new) if name in REPLACE_ALL else s.replace(old, new, 1)
     with open(p, 'w', encoding='utf-8') as f:
         f.write(s)
     return True
